@@ -269,21 +269,11 @@ def build(active_known=frozenset()):
     c.loop(1, invariant=unwind_inv, frame=[], lists=True)
 
     def rp_push(m, ctx, ob):
-        return (
-            "from basilisp.lang import runtime as rt, symbol as sym, map as lmap\n"
-            "ns = rt.Namespace.get_or_create(sym.symbol('c11-replay'))\n"
-            "d = rt.Var.intern(ns, sym.symbol('*d*'), 'root-d', dynamic=True)\n"
-            "nd = rt.Var.intern(ns, sym.symbol('nd'), 'root-nd', dynamic=False)\n"
-            "# the counter-model needs a dynamic Var processed *before* the failing one: pick a dynamic Var that the\n"
-            "# (hash-ordered) map iterates first\n"
-            "for i in range(64):\n"
-            "    d = rt.Var.intern(ns, sym.symbol(f'*d{i}*'), 'root-d', dynamic=True)\n"
-            "    m = lmap.map({d: 1, nd: 2})\n"
-            "    if [k for k, _ in m.items()][0] is d:\n        break\n"
-            "try:\n    rt.push_thread_bindings(m)\n    print('no exception')\nexcept rt.RuntimeException as e:\n    print('raised:', e)\n"
-            "print('*d* after the failed binding form:', d.value, '(root is root-d); frames:', len(rt._THREAD_BINDINGS.get_bindings()))\n"
-            "print('REPRODUCED' if d.value != 'root-d' else 'not reproduced')\n"
-        )
+        # the path fixes *why* establishing the bindings failed: choose the matching concrete failure
+        exc = getattr(ctx, "exc", None)
+        cls = getattr(getattr(exc, "pycls", None), "__name__", None)
+        kind = {"RuntimeException": "non-dynamic", "ExceptionInfo": "validator-rejects"}.get(cls, "validator-raises-base-exception")
+        return PUSH_REPLAY.replace("@KIND@", kind)
 
     c.replay(rp_push)
     c.replay_without_model = True
@@ -487,3 +477,35 @@ def build(active_known=frozenset()):
     c.replay(rp_ctx)
     c.replay_without_model = True
     return pack
+
+
+PUSH_REPLAY = r'''
+from basilisp.lang import runtime as rt, symbol as sym, map as lmap
+KIND = "@KIND@"
+ns = rt.Namespace.get_or_create(sym.symbol('c11-replay'))
+class Stop(BaseException):
+    pass
+def boom(v):
+    if v != 'root-bad':
+        raise Stop()
+    return True
+if KIND == 'non-dynamic':
+    bad = rt.Var.intern(ns, sym.symbol('nd'), 'root-bad', dynamic=False)
+else:
+    bad = rt.Var.intern(ns, sym.symbol('*bad*'), 'root-bad', dynamic=True)
+    bad.set_validator((lambda v: v == 'root-bad') if KIND == 'validator-rejects' else boom)
+# the counter-model needs a dynamic Var processed *before* the failing one: pick a dynamic Var that the
+# (hash-ordered) map iterates first
+for i in range(64):
+    d = rt.Var.intern(ns, sym.symbol(f'*d{i}*'), 'root-d', dynamic=True)
+    m = lmap.map({d: 1, bad: 2})
+    if [k for k, _ in m.items()][0] is d:
+        break
+try:
+    rt.push_thread_bindings(m)
+    print('no exception')
+except BaseException as e:
+    print('establishing the bindings failed (%s):' % KIND, type(e).__name__, e)
+print('the other Var after the failed binding form:', d.value, '(root is root-d); frames:', len(rt._THREAD_BINDINGS.get_bindings()))
+print('REPRODUCED' if d.value != 'root-d' else 'not reproduced')
+'''
